@@ -217,6 +217,65 @@ theorem packNums_allRepr : ∀ {f : Fmt} {xs : List Num} {bs : List UInt8}, pack
       obtain ⟨cv, rfl, hlt⟩ := uint?_some hv; exact ⟨v, cv, rfl, hlt⟩
     · obtain ⟨b, hb, _⟩ := packNum_f_ok ha; exact ⟨b, hb⟩
 
+/-! ### exact comparisons of Python numbers with double constants -/
+
+/-- `ratLt n1 e1 n2 e2` decides `n1 * 2^e1 < n2 * 2^e2` (the common factor 2^-1075 of both doubles dropped) -/
+theorem ratLt_iff (n1 n2 : Int) (e1 e2 : Nat) :
+    ratLt n1 e1 n2 e2 = true ↔ n1 * ((2 ^ e1 : Nat) : Int) < n2 * ((2 ^ e2 : Nat) : Int) := by
+  unfold ratLt
+  simp only [decide_eq_true_eq]
+  have hm1 : e1 = (e1 - min e1 e2) + min e1 e2 := by omega
+  have hm2 : e2 = (e2 - min e1 e2) + min e1 e2 := by omega
+  generalize min e1 e2 = m at hm1 hm2
+  generalize e1 - m = a at hm1
+  generalize e2 - m = b at hm2
+  subst hm1; subst hm2
+  have hpos : (0 : Int) < ((2 ^ m : Nat) : Int) := by exact_mod_cast Nat.two_pow_pos m
+  rw [Nat.pow_add, Nat.pow_add]
+  push_cast
+  rw [← Int.mul_assoc, ← Int.mul_assoc]
+  constructor
+  · intro h; exact Int.mul_lt_mul_of_pos_right h hpos
+  · intro h; exact Int.lt_of_mul_lt_mul_right h (Int.le_of_lt hpos)
+/-- the scaled integer value of a finite double: `value * 2^1075 = f64Num d * 2^(f64Ex d)` -/
+def f64Scaled (d : Nat) : Int := f64Num d * ((2 ^ f64Ex d : Nat) : Int)
+
+theorem gtF64_finite (d : Nat) (cv : Conv) (c : Nat) (hd : f64Exp d ≠ 2047) (hc : f64Exp c ≠ 2047) :
+    (Num.f d cv).gtF64 c = true ↔ f64Scaled c < f64Scaled d := by
+  have h1 : f64IsNaN d = false := by simp [f64IsNaN, hd]
+  have h2 : f64IsNaN c = false := by simp [f64IsNaN, hc]
+  have h3 : f64IsInf d = false := by simp [f64IsInf, hd]
+  have h4 : f64IsInf c = false := by simp [f64IsInf, hc]
+  simp only [Num.gtF64, h1, h2, h3, h4, Bool.not_false, Bool.true_and, Bool.false_eq_true, if_false]
+  exact ratLt_iff _ _ _ _
+
+theorem ltF64_finite (d : Nat) (cv : Conv) (c : Nat) (hd : f64Exp d ≠ 2047) (hc : f64Exp c ≠ 2047) :
+    (Num.f d cv).ltF64 c = true ↔ f64Scaled d < f64Scaled c := by
+  have h1 : f64IsNaN d = false := by simp [f64IsNaN, hd]
+  have h2 : f64IsNaN c = false := by simp [f64IsNaN, hc]
+  have h3 : f64IsInf d = false := by simp [f64IsInf, hd]
+  have h4 : f64IsInf c = false := by simp [f64IsInf, hc]
+  simp only [Num.ltF64, h1, h2, h3, h4, Bool.not_false, Bool.true_and, Bool.false_eq_true, if_false]
+  exact ratLt_iff _ _ _ _
+
+theorem gtF64_int (v : Int) (cv : Conv) (c : Nat) (hc : f64Exp c ≠ 2047) :
+    (Num.i v cv).gtF64 c = true ↔ f64Scaled c < v * ((2 ^ 1075 : Nat) : Int) := by
+  have h2 : f64IsNaN c = false := by simp [f64IsNaN, hc]
+  have h4 : f64IsInf c = false := by simp [f64IsInf, hc]
+  simp only [Num.gtF64, h2, h4, Bool.not_false, Bool.true_and, Bool.false_eq_true, if_false]
+  exact ratLt_iff _ _ _ _
+
+theorem ltF64_int (v : Int) (cv : Conv) (c : Nat) (hc : f64Exp c ≠ 2047) :
+    (Num.i v cv).ltF64 c = true ↔ v * ((2 ^ 1075 : Nat) : Int) < f64Scaled c := by
+  have h2 : f64IsNaN c = false := by simp [f64IsNaN, hc]
+  have h4 : f64IsInf c = false := by simp [f64IsInf, hc]
+  simp only [Num.ltF64, h2, h4, Bool.not_false, Bool.true_and, Bool.false_eq_true, if_false]
+  exact ratLt_iff _ _ _ _
+
+theorem nan_compares_false (d : Nat) (cv : Conv) (c : Nat) (hd : f64IsNaN d = true) :
+    (Num.f d cv).gtF64 c = false ∧ (Num.f d cv).ltF64 c = false := by
+  simp [Num.gtF64, Num.ltF64, hd]
+
 /-! ### send / size check -/
 
 theorem send_ok {p : Packet} {ps : List Packet} (h : send p = .ok ps) :
